@@ -138,7 +138,7 @@ theorem settleConnect_inv (s : Sys) (cslot : Nat) (c : Connecting) (k : Kernel) 
   split
   · exact ⟨(hs.setKernel _ hk).congr rfl rfl rfl, rfl, by obs_trivial⟩
   · exact ⟨(hs.setKernel _ hk).congr rfl rfl rfl, rfl, by obs_trivial⟩
-  · exact ⟨(hs.setKernel _ (hk.close _)).congr rfl rfl rfl, rfl, by obs_trivial⟩
+  · exact ⟨(hs.setKernel _ (hk.close _ _)).congr rfl rfl rfl, rfl, by obs_trivial⟩
 
 theorem step_inv (s : Sys) (op : Op) (hs : SInv s) :
     SInv (s.step op).1 ∧ (s.step op).1.cfg = s.cfg ∧ ObsOk s.cfg (s.step op).2 := by
@@ -161,7 +161,7 @@ theorem step_inv (s : Sys) (op : Op) (hs : SInv s) :
     rw [Sys.step]
     split
     · exact ⟨hs, rfl, by obs_trivial⟩
-    · exact ⟨(hs.setKernel _ ((hs.kernel _).close _)).congr rfl rfl rfl, rfl, by obs_trivial⟩
+    · exact ⟨(hs.setKernel _ ((hs.kernel _).close _ _)).congr rfl rfl rfl, rfl, by obs_trivial⟩
   | connect h cslot sslot peer =>
     rw [Sys.step]
     try dsimp only
@@ -176,7 +176,7 @@ theorem step_inv (s : Sys) (op : Op) (hs : SInv s) :
     rw [Sys.step]
     split
     · exact ⟨hs, rfl, by obs_trivial⟩
-    · exact ⟨(hs.setKernel _ ((hs.kernel _).close _)).congr rfl rfl rfl, rfl, by obs_trivial⟩
+    · exact ⟨(hs.setKernel _ ((hs.kernel _).close _ _)).congr rfl rfl rfl, rfl, by obs_trivial⟩
   | accept lslot sslot =>
     rw [Sys.step]
     split
@@ -223,7 +223,7 @@ theorem step_inv (s : Sys) (op : Op) (hs : SInv s) :
     rw [Sys.step]
     split
     · exact ⟨hs, rfl, by obs_trivial⟩
-    · exact ⟨(hs.setKernel _ ((hs.kernel _).close _)).congr rfl rfl rfl, rfl, by obs_trivial⟩
+    · exact ⟨(hs.setKernel _ ((hs.kernel _).close _ _)).congr rfl rfl rfl, rfl, by obs_trivial⟩
   | udpBind h uslot addr =>
     rw [Sys.step]
     have hb := (hs.kernel h).bind addr true
